@@ -35,6 +35,17 @@ impl Driven for D {
          _ => panic!("verif harness: unknown relation {}", rel),
       }
    }
+   fn clear(&mut self, rel: &str) {
+      match rel {
+         "grade" => { self.0.grade = Default::default(); },
+         "st" => { self.0.st = Default::default(); },
+         "failed" => { self.0.failed = Default::default(); },
+         "npass" => { self.0.npass = Default::default(); },
+         "top" => { self.0.top = Default::default(); },
+         "hi" => { self.0.hi = Default::default(); },
+         _ => panic!("verif harness: unknown relation {}", rel),
+      }
+   }
    fn run(&mut self) { self.0.run(); }
    fn dump(&self) -> Value {
       let mut m: Vec<(String, Value)> = vec![];
